@@ -132,7 +132,7 @@ def run(prog, tier, res):
     R1 = res.rule("C04.R1", "order-dependent uses of the chunk vector are dominated by a sort keyed on chunk_id", floor=6)
     R2 = res.rule("C04.R2", "pre-sort uses are permutation-invariant: is_empty / 'all g(c) == g(chunks[0])' for board and chip", floor=3)
     R3 = res.rule("C04.R3", "accept path requires chunk_id_i == i for all i (dense ids, after the sort)", floor=1)
-    R4 = res.rule("C04.R4", "accept path requires end-of-message on the last chunk and on no earlier chunk", floor=2)
+    R4 = res.rule("C04.R4", "accept path requires end-of-message on the last chunk and on no earlier chunk; is_end_of_message() is `flags == 1`", floor=3)
     R5 = res.rule("C04.R5", "accept path requires equal payload size of all non-final chunks (after the sort)", floor=1)
     R6 = res.rule("C04.R6", "empty chunk list is rejected", floor=1)
     R7 = res.rule("C04.R7", "decoded bytes = concatenation of payloads in vector order; result returned unchanged", floor=3)
@@ -350,6 +350,32 @@ def run(prog, tier, res):
         res.hit(R4)
     else:
         res.violate(R4, FN, "eom-earlier-unguarded", "misplaced end-of-message check does not guard the Ok path", body.where(e[0]))
+
+    # the accessor the two checks rely on: true exactly when the stored flags byte is 1 (flags is 0 or 1 by C03)
+    EOM = "alpha_g_detector::padwing::Chunk::is_end_of_message"
+    eb = prog.bodies.get(EOM)
+    eom_sem = None
+    if eb is not None:
+        from .. import bitsem
+        from ..guards import closure_ret as _closure_ret
+        res.functions.add(EOM)
+        fi = field_index(prog, "alpha_g_detector::padwing::Chunk", "flags")
+        rets = _closure_ret(prog, eb)
+
+        def is_flags(x):
+            while x[0] in ("ref", "deref"):
+                x = x[1]
+            return x[0] == "field" and x[2] == fi and strip(x[1]) == ("param", 1)
+        if len(rets) == 1 and fi is not None:
+            try:
+                eom_sem = (bitsem.ev(strip(rets[0]), is_flags, 0), bitsem.ev(strip(rets[0]), is_flags, 1))
+            except bitsem.Outside:
+                eom_sem = None
+    if eom_sem == (False, True):
+        res.hit(R4)
+    else:
+        res.violate(R4, EOM, "accessor", "Chunk::is_end_of_message() is not `flags == 1` on the decoder's flag values {0, 1} (evaluates to %s for flags 0 / 1)" % (eom_sem,),
+                    eb.where() if eb is not None else "")
 
     # ---------------------------------------------------------------- R5 equal size
     z = found["size"]
